@@ -49,10 +49,13 @@ package ovsdb
 //@ ensures result == SelInitial(m)
 //@ func (RowUpdate).Insert
 //@ pure
+//@ ensures result == (r.New != nil && r.Old == nil)
 //@ func (RowUpdate).Modify
 //@ pure
+//@ ensures result == (r.New != nil && r.Old != nil)
 //@ func (RowUpdate).Delete
 //@ pure
+//@ ensures result == (r.New == nil && r.Old != nil)
 
 // FromRowUpdate2 (C07): old row as is; the new row as is or, for a modification
 // with columns that changed to their default value, a fresh copy completed with
